@@ -17,7 +17,7 @@ var controls = []control{
 	{"C01", "benign: hoist the rule into a local (object builder unchanged)", "Builder/GoTemplBuilder.go", "rightPartlen := len(productionRule.RighPart)", "rhs := productionRule.RighPart\n\t\trightPartlen := len(rhs)", ""},
 
 	// ---- C02
-	{"C02", "first lookahead symbol dropped", "LALR/Table.go", "for _, sy := range lalr.LookAheadSet[tr.Index] {", "for _, sy := range lalr.LookAheadSet[tr.Index][1:] {", "reduce-for-every-lookahead"},
+	{"C02", "first lookahead symbol dropped", "LALR/Table.go", "for _, sy := range lalr.LookAheadSet[tr.Index] {\n\t\t\t\tr := lalr.G.ProductoinRules", "for _, sy := range lalr.LookAheadSet[tr.Index][1:] {\n\t\t\t\tr := lalr.G.ProductoinRules", "reduce-for-every-lookahead"},
 	{"C02", "action defaults emitted from goto defaults", "Builder/GoTemplBuilder.go", "range b.vnode.ActionDef {", "range b.vnode.GoToDef {", "StackPackActDef"},
 	{"C02", "dense rows emitted without first column", "Builder/GoTemplBuilder.go", "\t\t\tfor _, val := range row {\n\t\t\t\ts += fmt.Sprintf(\"%d,\\t\", val)", "\t\t\tfor _, val := range row[1:] {\n\t\t\t\ts += fmt.Sprintf(\"%d,\\t\", val)", "every-row-every-value"},
 	{"C02", "rule 0 gets no lookahead set", "LALR/LALR.go", "\t\t\tlalr.LookAheadSet[tr.Index] = []int{1}\n", "\t\t\t_ = tr\n", "every-reduce-transition-gets-a-set"},
@@ -48,7 +48,7 @@ var controls = []control{
 	{"C05", "reader takes goto default one column early", "Builder/GoCodeTemplate.go", "if a > NTERMINALS {", "if a >= NTERMINALS {", "go/global/packed/(*StateSym).Action"},
 	{"C05", "check vector not trimmed", "Utils/packtable.go", "\t\tcheck = check[1:]\n", "", "trim-moves"},
 	{"C05", "blanking against another row's default", "LALR/LALR.go", "if actTab[i][j] == actdef[i] {", "if actTab[i][j] == actdef[0] {", "blank-equals-own-default"},
-	{"C05", "scan does not restart after a bump", "Utils/packtable.go", "\t\t\t\trow[i]++\n\t\t\t\tgoto checkoverlap\n", "\t\t\t\trow[i]++\n", "overlap-scan-restarts"},
+	{"C05", "scan does not restart after a bump", "Utils/packtable.go", "\t\t\t\trow[i]++\n\t\t\t\tgoto checkoverlap\n", "\t\t\t\trow[i]++\n\t\t\t\tcontinue checkoverlap\n", "overlap-scan-restarts"},
 	{"C05", "debug reader and UnPackTable disagree on the upper bound", "Utils/packtable.go", "D[i]+j >= len(C)", "D[i]+j > len(C)", "UnPackTable"},
 	{"C05", "benign: rename payload slice in PackTable", "Utils/packtable.go", "ret", "payload", ""},
 
@@ -116,7 +116,7 @@ var controls = []control{
 	// ---- C14
 	{"C14", "successors registered in map order", "Grammar/grammar.go", "for _, goItem := range IC.GoTo {", "for _, goItem := range IC.GoToMap {", "ComputeGotoItemNoneRec"},
 	{"C14", "const block in map order", "Builder/GoTemplBuilder.go", "\tfor _, name := range b.vnode.SortedNames() {\n\t\tidentifier := b.vnode.GetIdsymtabl()[name]", "\tfor _, identifier := range b.vnode.GetIdsymtabl() {", "buildConstPart"},
-	{"C14", "names collected but not sorted", "Parser/Vistor.go", "\tsort.Strings(names)\n\treturn names", "\treturn names", "sortedNames"},
+	{"C14", "names collected but not sorted", "Parser/Vistor.go", "\tsort.Strings(names)\n\treturn names", "\tsort.Sort(sort.StringSlice(names[:0]))\n\treturn names", "sortedNames"},
 	{"C14", "timestamp in the header", "Builder/GoTemplBuilder.go", "\tb.CodeLast = b.vnode.GetCodeCopy()\n", "\tb.CodeLast = b.vnode.GetCodeCopy() + fmt.Sprint(\"// \", os.Getpid(), \"\\n\")\n", "no-time-rand-env"},
 	{"C14", "benign: rename the sorted slice", "Parser/Vistor.go", "names", "keys", ""},
 
